@@ -86,6 +86,41 @@ def analyse_work(facts, body, rf):
     return info
 
 
+def min_leaves(facts, body, e, depth=0):
+    """(leaves, ok): e as a minimum over window lengths - nested `min(a, b)` / `a.min(b)` / `[..].iter().fold(init, min)`;
+    leaves are (field, 'R'|'W'); a huge constant (usize::MAX) is the neutral element; anything else makes ok False"""
+    p = peel(e, through_try=False)
+    if p is None or depth > 12:
+        return set(), False
+    if p.k == "const":
+        return set(), isinstance(p.v, int) and not isinstance(p.v, bool) and p.v > 2 ** 60
+    w = c09.len_of_window(p)
+    if w:
+        return {w}, True
+    if p.k == "call" and (p.q in MIN_CALLS or p.rq in MIN_CALLS) and len(p.args) == 2:
+        l1, o1 = min_leaves(facts, body, p.args[0], depth + 1)
+        l2, o2 = min_leaves(facts, body, p.args[1], depth + 1)
+        return l1 | l2, o1 and o2
+    if p.k == "call" and p.q == FOLD and len(p.args) == 3:
+        elems = _array_elems(p.args[0])
+        leaves = set()
+        ok = elems is not None
+        for el in elems or []:
+            w = c09.len_of_window(el)
+            if w:
+                leaves.add(w)
+            else:
+                ok = False
+        l0, o0 = min_leaves(facts, body, p.args[1], depth + 1)
+        clo = None
+        for x in walk(p.args[2]):
+            if x.k == "agg" and x.ak == "closure":
+                clo = facts.by_path.get(x.q)
+        has_min = clo is not None and any((t["f"].get("name") == "min") for _, t in clo.calls())
+        return leaves | l0, ok and o0 and has_min
+    return set(), False
+
+
 def _is_call_at(e, bb):
     p = peel(e, through_try=False)
     return p is not None and p.k == "call" and p.bb == bb
@@ -112,16 +147,40 @@ def rule_work(facts, col, rid_c19="C19.R2", rid_c08="C08.R1", rid_c12="C12.R2", 
             bad(rid_c19, "a:windows", "generated work() acquires windows on in=%s out=%s but the struct declares in=%s out=%s"
                 % (sorted(info["reads"]), sorted(info["writes"]), ins, outs))
         # (c) n = min over all inputs, then over all outputs
+        alt_n = None
+        if not info["folds"]:
+            # no fold-shaped clamp: judge the count expression itself as a minimum over window lengths, whatever its spelling
+            # (`usize::MAX.min(a.len()).min(b.len())`, then `n.min(dst.len())`)
+            cnts = [body.operand_expr(t["args"][1]) for bb, t in body.calls() if (CONSUME in Body.callee_qs(t) or PRODUCE in Body.callee_qs(t)) and len(t["args"]) > 1]
+            if cnts:
+                leaves, lok = min_leaves(facts, body, cnts[0])
+                alt_n = cnts[0]
+                got_in = {f for f, k_ in leaves if k_ == "R"}
+                got_out = {f for f, k_ in leaves if k_ == "W"}
+                if lok and got_in == set(ins):
+                    ok(rid_c19, "c:min_inputs", "n = min over len() of every input window")
+                else:
+                    bad(rid_c19, "c:min_inputs", "the step count is not clamped to the shortest of ALL inputs (minimum over %s, inputs %s): "
+                        "the loop runs past the end of a shorter input window / consumes more than offered" % (sorted(got_in), ins))
+                if lok and got_out == set(outs):
+                    ok(rid_c19, "c:min_outputs", "n = min(n, len() of every output window)")
+                else:
+                    bad(rid_c19, "c:min_outputs", "the step count is not clamped to the smallest output space of ALL outputs (minimum over %s, "
+                        "outputs %s): commits more than the write window offered" % (sorted(got_out), outs))
         f_in = [f for f in info["folds"] if f["init"].k == "const" and f["init"].v is not None and f["init"].v > 2 ** 60]
         f_out = [f for f in info["folds"] if f not in f_in]
         n2 = None
-        if len(f_in) == 1 and set(f_in[0]["fields"]) == set(ins) and None not in f_in[0]["fields"]:
+        if alt_n is not None:
+            pass
+        elif len(f_in) == 1 and set(f_in[0]["fields"]) == set(ins) and None not in f_in[0]["fields"]:
             ok(rid_c19, "c:min_inputs", "n = min over len() of every input window")
         else:
             bad(rid_c19, "c:min_inputs", "the step count is not clamped to the shortest of ALL inputs (folds over %s, inputs %s): "
                 "the loop runs past the end of a shorter input window / consumes more than offered"
                 % ([f["fields"] for f in f_in], ins), f_in[0]["bb"] if f_in else None)
-        if len(f_out) == 1 and set(f_out[0]["fields"]) == set(outs) and None not in f_out[0]["fields"] and f_in and _is_call_at(f_out[0]["init"], f_in[0]["bb"]):
+        if alt_n is not None:
+            pass
+        elif len(f_out) == 1 and set(f_out[0]["fields"]) == set(outs) and None not in f_out[0]["fields"] and f_in and _is_call_at(f_out[0]["init"], f_in[0]["bb"]):
             ok(rid_c19, "c:min_outputs", "n = min(n, len() of every output window)")
             n2 = f_out[0]["bb"]
         else:
@@ -148,7 +207,11 @@ def rule_work(facts, col, rid_c19="C19.R2", rid_c08="C08.R1", rid_c12="C12.R2", 
                 prods[_window_field(body.operand_expr(t["args"][0]))] = (bb, t)
         miss_c = [f for f in ins if f not in cons]
         miss_p = [f for f in outs if f not in prods]
-        wrong_n = [f for f, (bb, t) in list(cons.items()) + list(prods.items()) if n2 is None or not _is_call_at(body.operand_expr(t["args"][1]), n2)]
+        def _is_n(e_):
+            if alt_n is not None:
+                return same_expr(e_, alt_n)
+            return n2 is not None and _is_call_at(e_, n2)
+        wrong_n = [f for f, (bb, t) in list(cons.items()) + list(prods.items()) if not _is_n(body.operand_expr(t["args"][1]))]
         if miss_c or miss_p:
             bad(rid_c19, "e:commit_all", "generated work() does not consume from %s / produce on %s: those streams stall or repeat "
                 "samples while the others advance" % (miss_c, miss_p))
@@ -186,7 +249,7 @@ def rule_work(facts, col, rid_c19="C19.R2", rid_c08="C08.R1", rid_c12="C12.R2", 
         if forb:
             bad(rid_c08, "i:adaptors", "the generated sample loop uses iterator adaptor(s) %s: samples are no longer processed in "
                 "lock-step from index 0" % forb)
-        elif len(takes) != 1 or n2 is None or not _is_call_at(body.operand_expr(takes[0][1]["args"][1]), n2):
+        elif len(takes) != 1 or not _is_n(body.operand_expr(takes[0][1]["args"][1])):
             bad(rid_c08, "i:take_n", "the sample iterator is not limited by take(n) with the clamped step count")
         else:
             ok(rid_c08, "i:lockstep", "inputs walked in lock-step from 0 (take(n), zip, enumerate, map only)")
@@ -234,13 +297,52 @@ def rule_work(facts, col, rid_c19="C19.R2", rid_c08="C08.R1", rid_c12="C12.R2", 
         else:
             bad(rid_c08, "ii:once_per_sample", "the per-sample closure does not call process_sync_tags exactly once per sample on every path")
         # C12.R2: emitted tags carry the loop index; input tags are selected by == index
+        def _is_index(e_):
+            # enumerate index = field 0 of the per-sample closure's item parameter (param 2)
+            e_ = peel(e_, through_try=False)
+            return e_ is not None and e_.k == "field" and e_.idx == 0 and peel(e_.a, through_try=False).k == "param" and peel(e_.a, through_try=False).idx == 2
+
         tnews = [(bb, t) for bb, t in clo.calls_to("stream::Tag::new")]
         badpos = []
         for bb, t in tnews:
-            e = peel(clo.operand_expr(t["args"][0]), through_try=False)
-            # enumerate index = field 0 of the closure's item parameter (param 2)
-            if not (e.k == "field" and e.idx == 0 and peel(e.a, through_try=False).k == "param" and peel(e.a, through_try=False).idx == 2):
+            if not _is_index(clo.operand_expr(t["args"][0])):
                 badpos.append(bb)
+        # ... or built by a closure nested in it (`otags.extend(ts.iter().map(|tag| Tag::new(pos, ..)))`) that captures the index
+        for nc in facts.bodies:
+            if nc.kind != "closure" or not nc.path.startswith(clo.path + "::"):
+                continue
+            for bb, t in nc.calls_to("stream::Tag::new"):
+                pe = peel(nc.operand_expr(t["args"][0]), through_try=False)
+                if pe is not None and pe.k == "const" and pe.v == 0:
+                    continue      # the copies of the INPUT tags handed to process_sync_tags (position 0 = "this sample")
+                tnews.append((bb, t))
+                good = False
+                # position = a captured variable: field i of the closure environment (param 1) ...
+                x_ = pe
+                n_ = 0
+                while x_ is not None and x_.k in ("deref", "ref") and n_ < 4:
+                    x_ = peel(x_.a, through_try=False)
+                    n_ += 1
+                if x_ is not None and x_.k == "field" and x_.idx is not None:
+                    base = peel(x_.a, through_try=False)
+                    n_ = 0
+                    while base is not None and base.k in ("deref", "ref") and n_ < 4:
+                        base = peel(base.a, through_try=False)
+                        n_ += 1
+                    if base is not None and base.k == "param" and base.idx == 1:
+                        # ... which the enclosing per-sample closure filled with its loop index
+                        for blk in clo.blocks:
+                            for st in blk["stmts"]:
+                                if st["k"] == "assign" and st["rv"]["k"] == "agg" and st["rv"].get("closure") == nc.path and x_.idx < len(st["rv"]["ops"]):
+                                    cap = clo.operand_expr(st["rv"]["ops"][x_.idx])
+                                    n2_ = 0
+                                    while cap is not None and cap.k in ("ref", "deref") and n2_ < 4:
+                                        cap = cap.a
+                                        n2_ += 1
+                                    if _is_index(cap):
+                                        good = True
+                if not good:
+                    badpos.append(bb)
         if tnews and not badpos:
             ok(rid_c12, "emit_pos", "every re-emitted tag is created at the loop index of its sample (%d sites)" % len(tnews))
         elif not tnews:
@@ -248,7 +350,8 @@ def rule_work(facts, col, rid_c19="C19.R2", rid_c08="C08.R1", rid_c12="C12.R2", 
         else:
             bad(rid_c12, "emit_pos", "a re-emitted tag is created at a position other than the index of the sample being processed: tags "
                 "land on the wrong output sample", badpos[0])
-        filters = [c for c in facts.bodies if c.kind == "closure" and c.path.startswith(clo.path + "::") and c.upvars and [u["s"] for u in c.upvars] == ["&usize"]]
+        filters = [c for c in facts.bodies if c.kind == "closure" and c.path.startswith(clo.path + "::") and c.upvars and [u["s"] for u in c.upvars] == ["&usize"]
+                   and c.locals[0]["ty"] == "bool"]       # predicates (a `map` closure capturing the index is not a filter)
         fbad = []
         for fc in filters:
             okf = False
